@@ -124,7 +124,9 @@ type Step struct {
 }
 
 type In struct {
-	Workload string            `json:"workload"`
+	Workload string `json:"workload"`
+	// Prop: the property whose predicates the Lean handler evaluates on the real answers
+	Prop     string            `json:"prop,omitempty"`
 	Features map[string]string `json:"features"`
 	Steps    []Step            `json:"steps"`
 }
